@@ -6,7 +6,8 @@ def prepare(rp, ce, params):
     opn = ["JumpIf", "HaltIf", "PanicIf", "Halt"][trace_val(ce, "op", 0)]
     S = seq(m, "s")
     pc = min(m.get("pc", 0), 3)        # the real program can only place the op at a small index
-    fields = dict(kind="vm_op", op="TotalControlFlow::" + opn, stack=" ".join(map(str, S)), memory="", pc=str(pc))
+    fields = dict(kind="vm_op", op="TotalControlFlow::" + opn, stack=" ".join(map(str, S)), memory="", pc=str(pc),
+                  fill="halt", tail="8")
 
     def ref():
         """(ok, next_pc or None, halted, stack)"""
@@ -20,6 +21,7 @@ def prepare(rp, ce, params):
         d = S[-2]
         if c == 0: return True, pc + 1, False, S[:-2]
         if d == 0 or pc + d < 0 or pc + d > 2**64 - 1: return (False,)
+        # landing on one of the Halt fillers (or beyond the program) ends the run at the target
         return True, pc + d, False, S[:-2]
 
     def judge(out):
@@ -27,12 +29,13 @@ def prepare(rp, ce, params):
         if "skipped" in out: return False, out["skipped"]
         r = ref()
         if out.get("result") == "err":
-            if out.get("err_index") != str(pc): return bool(r[0]), "error at another index: " + str(out)[:150]
+            if out.get("err_index") != str(pc): return True, "error reported at another index than the failing op: " + str(out)[:150]
             return bool(r[0]), f"real: error ({out.get('err','')[:80]}); reference: {'ok' if r[0] else 'error'}"
         if not r[0]: return True, "real code succeeds where the specification requires an error"
         st = [int(x) for x in out.get("stack", "").split()]
         # after a jump the (single-op) program ends: only the new pc is observable
-        bad = st != r[3] or (r[2] != (out.get("halt") == "true") and opn != "Halt" and opn != "HaltIf")
-        if int(out.get("pc", -1)) != r[1] and not r[2]: bad = True
+        bad = st != r[3]
+        # not halted at the op itself: execution continues at r[1]; a Halt filler (or the program end) stops it there
+        if not r[2] and int(out.get("pc", -1)) != r[1] and r[1] <= pc + 9: bad = True
         return bad, f"real pc={out.get('pc')} stack={st}; reference pc={r[1]} stack={r[3]}"
     return fields, judge
